@@ -2,7 +2,7 @@
 (* Trace validation for C16 against ResultsFile.tla.                                                                 *)
 (*  file  {cols, colsBack, dig, digBack, meta, metaBack}   table written with Table.write(format="fits") and read back *)
 (*        meta / metaBack: sequences of <<key, <<kind, x>>>>                                                          *)
-(*  hdr   {flat, header}   flattened configuration (model dump) vs the HIERARCH Config cards of the file               *)
+(*  hdr   {flat, header, flatkeys}   flattened configuration (model dump) vs the HIERARCH Config cards of the file               *)
 (*  recon {ok, cfg, recon} config_from_fits of a results file vs the configuration that produced it                    *)
 (*  end   {}               last event: the reconstructed-field invariant over all recon events                          *)
 EXTENDS TraceKit, ResultsFile
@@ -18,7 +18,9 @@ Check(e) ==
                  <<"C16 every header value is preserved", \A k \in Keys(e.meta) : ValSame(Lookup(e.meta, k), Lookup(e.metaBack, k))>> >>)
       [] e.kind = "hdr" ->
         Fails(<< <<"C16 the header contains the complete flattened configuration (all values FITS can represent)",
-                   \A k \in Keys(e.flat) : ValSame(Lookup(e.flat, k), Lookup(e.header, k))>> >>)
+                   \A k \in Keys(e.flat) : ValSame(Lookup(e.flat, k), Lookup(e.header, k))>>,
+                 <<"C16 every configuration card of the header is a field of the configuration that produced the run (self-describing: no card of another run)",
+                   \A k \in Keys(e.header) : k \in {e.flatkeys[i] : i \in 1..Len(e.flatkeys)}>> >>)
       [] e.kind = "recon" -> Fails(<< <<"C16 a stored results file can be reloaded into a configuration", e.ok>> >>)
       [] e.kind = "plotload" -> Fails(<< <<"C16 stored results can be reloaded for plotting (show-plot --plotall on the file succeeds)", e.ok>> >>)
       [] e.kind = "end" ->
